@@ -13,34 +13,37 @@ use async_graphql::Positioned;
 use crate::ast::*;
 use crate::vsrc::Src;
 
-/// A chain of exactly W wrappers (each a field with a sub-selection or an inline fragment,
-/// chosen by the solver) around a leaf field: nesting depth is exactly W; the recursion limit
-/// L (EVERY usize) rejects iff W > L.
-fn rec_depth_chain<S: Src, const W: usize>(s: &mut S) {
+/// A chain of wrappers around a leaf field; KINDS encodes the chain from the inside out, one
+/// decimal digit per wrapper (1 = field with a sub-selection, 2 = inline fragment), so the
+/// shape is concrete per harness. Nesting depth = number of wrappers W; the recursion limit L
+/// (EVERY usize) rejects iff W > L.
+fn rec_depth_chain<S: Src, const KINDS: usize>(s: &mut S) {
     let limit = s.usize();
     let mut items = vec![field("leaf", None, Vec::new(), Vec::new())];
-    let mut i = 0;
-    while i < W {
-        let as_field = s.bool();
-        items = if as_field { vec![field("f", None, Vec::new(), items)] } else { vec![inline(items)] };
-        i += 1;
+    let mut k = KINDS;
+    let mut w = 0;
+    while k > 0 {
+        items = if k % 10 == 1 { vec![field("f", None, Vec::new(), items)] } else { vec![inline(items)] };
+        k /= 10;
+        w += 1;
     }
     let doc = ManuallyDrop::new(query_doc(items));
     let r = ManuallyDrop::new(check_recursive_depth(&doc, limit));
     let ok = r.is_ok();
-    cover!(limit == W, "limit equals the nesting");
-    cover!(W > limit || W == 0, "nesting above the limit");
-    assert!(ok == (W <= limit), "recursion limit: rejected iff nesting > limit");
+    cover!(limit == w, "limit equals the nesting");
+    cover!(w > limit || w == 0, "nesting above the limit");
+    assert!(ok == (w <= limit), "recursion limit: rejected iff nesting > limit");
 }
-pub fn rec_depth_chain0<S: Src>(s: &mut S) { rec_depth_chain::<S, 0>(s) }
-pub fn rec_depth_chain1<S: Src>(s: &mut S) { rec_depth_chain::<S, 1>(s) }
-pub fn rec_depth_chain2<S: Src>(s: &mut S) { rec_depth_chain::<S, 2>(s) }
+pub fn rec_depth_chain_0<S: Src>(s: &mut S) { rec_depth_chain::<S, 0>(s) }
+pub fn rec_depth_chain_f<S: Src>(s: &mut S) { rec_depth_chain::<S, 1>(s) }
+pub fn rec_depth_chain_i<S: Src>(s: &mut S) { rec_depth_chain::<S, 2>(s) }
+pub fn rec_depth_chain_fi<S: Src>(s: &mut S) { rec_depth_chain::<S, 12>(s) }
+pub fn rec_depth_chain_if<S: Src>(s: &mut S) { rec_depth_chain::<S, 21>(s) }
 
-/// A field carrying exactly D directives, optionally inside an inline fragment (solver-chosen):
+/// A field carrying exactly D directives, directly or inside an inline fragment (NESTED):
 /// the directive limit L (EVERY usize) rejects iff D > L.
-fn max_directives<S: Src, const D: usize>(s: &mut S) {
+fn max_directives<S: Src, const D: usize, const NESTED: bool>(s: &mut S) {
     let limit = s.usize();
-    let nested = s.bool();
     let mut dirs = Vec::new();
     if D >= 1 {
         dirs.push(directive("a"));
@@ -49,17 +52,18 @@ fn max_directives<S: Src, const D: usize>(s: &mut S) {
         dirs.push(directive("b"));
     }
     let f = field("f", None, dirs, Vec::new());
-    let items = if nested { vec![inline(vec![f])] } else { vec![f] };
+    let items = if NESTED { vec![inline(vec![f])] } else { vec![f] };
     let doc = ManuallyDrop::new(query_doc(items));
     let r = ManuallyDrop::new(check_max_directives(&doc, limit));
     let ok = r.is_ok();
-    cover!(limit == D && nested, "limit equals the count, nested");
+    cover!(limit == D, "limit equals the count");
     cover!(D > limit || D == 0, "count above the limit");
     assert!(ok == (D <= limit), "directive limit: rejected iff count > limit");
 }
-pub fn max_directives0<S: Src>(s: &mut S) { max_directives::<S, 0>(s) }
-pub fn max_directives1<S: Src>(s: &mut S) { max_directives::<S, 1>(s) }
-pub fn max_directives2<S: Src>(s: &mut S) { max_directives::<S, 2>(s) }
+pub fn max_directives_0<S: Src>(s: &mut S) { max_directives::<S, 0, false>(s) }
+pub fn max_directives_1<S: Src>(s: &mut S) { max_directives::<S, 1, false>(s) }
+pub fn max_directives_2<S: Src>(s: &mut S) { max_directives::<S, 2, false>(s) }
+pub fn max_directives_2n<S: Src>(s: &mut S) { max_directives::<S, 2, true>(s) }
 
 /// The real depth and complexity visitors, composed as `check_rules` composes them, driven
 /// by EVERY well-nested script of N field events: depth = maximum nesting, complexity =
@@ -107,12 +111,15 @@ pub fn depth_complexity6<S: Src>(s: &mut S) { depth_complexity::<S, 6>(s) }
 pub fn depth_complexity8<S: Src>(s: &mut S) { depth_complexity::<S, 8>(s) }
 
 harnesses! {
-    #[kani::unwind(5)] #[kani::stub(std::fmt::format, crate::stubs::fmt_stub)] #[kani::stub(std::hash::RandomState::new, crate::stubs::rs_new)] c10_rec_depth_chain0 => rec_depth_chain0;
-    #[kani::unwind(5)] #[kani::stub(std::fmt::format, crate::stubs::fmt_stub)] #[kani::stub(std::hash::RandomState::new, crate::stubs::rs_new)] c10_rec_depth_chain1 => rec_depth_chain1;
-    #[kani::unwind(5)] #[kani::stub(std::fmt::format, crate::stubs::fmt_stub)] #[kani::stub(std::hash::RandomState::new, crate::stubs::rs_new)] c10_rec_depth_chain2 => rec_depth_chain2;
-    #[kani::unwind(5)] #[kani::stub(std::fmt::format, crate::stubs::fmt_stub)] #[kani::stub(std::hash::RandomState::new, crate::stubs::rs_new)] c10_max_directives0 => max_directives0;
-    #[kani::unwind(5)] #[kani::stub(std::fmt::format, crate::stubs::fmt_stub)] #[kani::stub(std::hash::RandomState::new, crate::stubs::rs_new)] c10_max_directives1 => max_directives1;
-    #[kani::unwind(5)] #[kani::stub(std::fmt::format, crate::stubs::fmt_stub)] #[kani::stub(std::hash::RandomState::new, crate::stubs::rs_new)] c10_max_directives2 => max_directives2;
+    #[kani::unwind(3)] #[kani::stub(std::fmt::format, crate::stubs::fmt_stub)] #[kani::stub(std::hash::RandomState::new, crate::stubs::rs_new)] c10_rec_depth_chain_0 => rec_depth_chain_0;
+    #[kani::unwind(3)] #[kani::stub(std::fmt::format, crate::stubs::fmt_stub)] #[kani::stub(std::hash::RandomState::new, crate::stubs::rs_new)] c10_rec_depth_chain_f => rec_depth_chain_f;
+    #[kani::unwind(3)] #[kani::stub(std::fmt::format, crate::stubs::fmt_stub)] #[kani::stub(std::hash::RandomState::new, crate::stubs::rs_new)] c10_rec_depth_chain_i => rec_depth_chain_i;
+    #[kani::unwind(4)] #[kani::stub(std::fmt::format, crate::stubs::fmt_stub)] #[kani::stub(std::hash::RandomState::new, crate::stubs::rs_new)] c10_rec_depth_chain_fi => rec_depth_chain_fi;
+    #[kani::unwind(4)] #[kani::stub(std::fmt::format, crate::stubs::fmt_stub)] #[kani::stub(std::hash::RandomState::new, crate::stubs::rs_new)] c10_rec_depth_chain_if => rec_depth_chain_if;
+    #[kani::unwind(3)] #[kani::stub(std::fmt::format, crate::stubs::fmt_stub)] #[kani::stub(std::hash::RandomState::new, crate::stubs::rs_new)] c10_max_directives_0 => max_directives_0;
+    #[kani::unwind(3)] #[kani::stub(std::fmt::format, crate::stubs::fmt_stub)] #[kani::stub(std::hash::RandomState::new, crate::stubs::rs_new)] c10_max_directives_1 => max_directives_1;
+    #[kani::unwind(3)] #[kani::stub(std::fmt::format, crate::stubs::fmt_stub)] #[kani::stub(std::hash::RandomState::new, crate::stubs::rs_new)] c10_max_directives_2 => max_directives_2;
+    #[kani::unwind(4)] #[kani::stub(std::fmt::format, crate::stubs::fmt_stub)] #[kani::stub(std::hash::RandomState::new, crate::stubs::rs_new)] c10_max_directives_2n => max_directives_2n;
     #[kani::unwind(8)] #[kani::stub(std::fmt::format, crate::stubs::fmt_stub)] #[kani::stub(std::hash::RandomState::new, crate::stubs::rs_new)] c10_depth_complexity2 => depth_complexity2;
     #[kani::unwind(8)] #[kani::stub(std::fmt::format, crate::stubs::fmt_stub)] #[kani::stub(std::hash::RandomState::new, crate::stubs::rs_new)] c10_depth_complexity4 => depth_complexity4;
     #[kani::unwind(8)] #[kani::stub(std::fmt::format, crate::stubs::fmt_stub)] #[kani::stub(std::hash::RandomState::new, crate::stubs::rs_new)] c10_depth_complexity6 => depth_complexity6;
